@@ -7,7 +7,7 @@ import time
 from collections import deque
 
 from .. import drive, gen, inject, observe
-from ..observe import (Event, Interpreter, MachineLogic, Rec, SyncInterpreter, config_of,
+from ..observe import (Event, Interpreter, MachineLogic, Rec, SyncInterpreter, config_of, xs,
                        create_machine, drain, make_machine, run_virtual)
 from .common import Result, Watchdog, h, plan_summary, rng_for
 
@@ -350,6 +350,142 @@ def sync_case(res: Result, spec, idx, with_injection=True):
     check_history(res, accepted, rec.log, "sync", wit, lambda e: hasattr(e, "owner_id"))
 
 
+def faulty_event_in_the_middle(res: Result, engine, fault, n_before, n_after, cross_thread, pid="C04"):
+    """Events accepted BEHIND one whose processing fails (missing action / unresolvable target)
+    are still processed, once, in order: in the sync engine the failure is raised from
+    send()/send_events() and the rest stays queued for the next drain; in the async engine it is
+    logged and the loop goes on."""
+    import threading
+    got = []
+    gate = {"sent": False}
+
+    def note(i, c, e, a):
+        got.append(e.payload.get("k"))
+        if cross_thread and engine == "sync" and not gate["sent"] and e.payload.get("k") == 0:
+            gate["sent"] = True
+            th = threading.Thread(target=lambda: i.send(Event(type="A", payload={"k": 900})), daemon=True)
+            th.start()
+            th.join(1.0)          # accepted (queued) while this macrostep is in flight
+    bad = {"missing-action": {"actions": ["not_implemented_anywhere"]},
+           "unresolvable-target": {"target": "#m.__nowhere__"}}[fault]
+    cfg = {"id": "m", "initial": "s", "states": {"s": {"on": {
+        "A": {"actions": ["note"]}, "BAD": bad,
+        "R": {"actions": [{"type": "xstate.raise", "params": {"event": {"type": "A", "k": 800}}},
+                          {"type": "xstate.raise", "params": {"event": "BAD"}},
+                          {"type": "xstate.raise", "params": {"event": {"type": "A", "k": 801}}}]}}}}}
+    machine = create_machine(cfg, logic=MachineLogic(actions={"note": note}))
+    batch = [Event(type="A", payload={"k": k}) for k in range(n_before)] + [Event(type="BAD", payload={})] + \
+            [Event(type="A", payload={"k": 100 + k}) for k in range(n_after)]
+    # (the whole batch is queued before the drain starts, so the cross-thread event lands behind it)
+    want = list(range(n_before)) + [100 + k for k in range(n_after)] + \
+        ([900] if cross_thread and engine == "sync" and n_before else []) + [800, 801] + [999]
+    raised = []
+    if engine == "sync":
+        it = SyncInterpreter(machine).start()
+        for step in (lambda: it.send_events(batch), lambda: it.send("R"),
+                     lambda: it.send(Event(type="A", payload={"k": 999}))):
+            try:
+                step()
+            except xs.XStateMachineError as x:
+                raised.append(type(x).__name__)
+            except Exception as x:  # noqa: BLE001
+                raised.append("RAW:" + type(x).__name__)
+        # anything still queued is drained by one more (harmless) send
+        try:
+            it.send("NOP")
+        except Exception:  # noqa: BLE001
+            pass
+        it.stop()
+    else:
+        async def body():
+            it = Interpreter(machine)
+            await it.start()
+            await it.send_events(batch)
+            await drain(it, max_yields=400)
+            await it.send("R")
+            await drain(it, max_yields=400)
+            await it.send(Event(type="A", payload={"k": 999}))
+            await drain(it, max_yields=400)
+            await it.stop()
+        run_virtual(body)
+    res.evaluations += 1
+    res.count("faulty-event.scenarios." + engine)
+    res.hashes.add(h(["faulty-mid", engine, fault, n_before, n_after, cross_thread]))
+    wit = {"engine": engine, "fault": fault, "batch": [e.type + str(e.payload.get("k", "")) for e in batch],
+           "then": ["R (raises A800, BAD, A801)", "A999"], "processed": got, "expected": want,
+           "raised": raised}
+    if any(r.startswith("RAW:") for r in raised):
+        res.violation("%s:raw-exception-from-send/%s" % (pid, engine), str(raised), wit)
+    if sorted(got) != sorted(want):
+        lost = [k for k in want if k not in got]
+        dup = sorted({k for k in got if got.count(k) > 1})
+        res.violation("%s:event-behind-a-failing-one-%s/%s/%s" % (pid, "lost" if lost else "duplicated", fault, engine),
+                      "lost %s duplicated %s" % (lost, dup), wit)
+    elif got != want:
+        res.violation("%s:events-behind-a-failing-one-reordered/%s/%s" % (pid, fault, engine),
+                      "processed %s, sent %s" % (got, want), wit)
+
+
+def settle_before_next_event(res: Result, engine, how, depth):
+    """Run-to-completion: an event that is already queued when a transition lands in a state with an
+    enabled eventless (always) chain is handled only after that chain has settled, i.e. by the
+    stable state, never by a transient one."""
+    seen = []
+
+    def mk(n):
+        return lambda i, c, e, a: seen.append(n)
+    states = {"idle": {"on": {"GO": "t0", "PING": {"actions": ["ping@idle"]}}},
+              "ready": {"on": {"PING": {"actions": ["ping@ready"]}}}}
+    for k in range(depth):
+        states["t%d" % k] = {"always": [{"target": "t%d" % (k + 1) if k + 1 < depth else "ready"}],
+                             "on": {"PING": {"actions": ["ping@transient"]}}}
+    if how == "raised":
+        states["idle"]["on"]["GO"] = {"target": "t0", "actions": [
+            {"type": "xstate.raise", "params": {"event": "PING"}}]}
+    acts = {n: mk(n) for n in ("ping@idle", "ping@ready", "ping@transient")}
+    if engine == "async" and how == "other-task":
+        async def slow(i, c, e, a):
+            await asyncio.sleep(0.002)
+        states["idle"]["on"]["GO"] = {"target": "t0", "actions": ["slow"]}
+        acts["slow"] = slow
+    machine = create_machine({"id": "m", "initial": "idle", "states": states}, logic=MachineLogic(actions=acts))
+    if engine == "sync":
+        it = SyncInterpreter(machine).start()
+        if how == "batch":
+            it.send_events(["GO", "PING"])
+        else:
+            it.send("GO")
+        it.stop()
+    else:
+        async def body():
+            it = Interpreter(machine)
+            await it.start()
+            if how == "batch":
+                await it.send_events(["GO", "PING"])
+            elif how == "gather":
+                await asyncio.gather(it.send("GO"), it.send("PING"))
+            elif how == "other-task":
+                async def later():
+                    await asyncio.sleep(0.001)          # while the GO action is still awaiting
+                    await it.send("PING")
+                t = asyncio.ensure_future(later())
+                await it.send("GO")
+                await t
+            else:
+                await it.send("GO")
+            await asyncio.sleep(0.01)
+            await drain(it, max_yields=300)
+            await it.stop()
+        run_virtual(body)
+    res.evaluations += 1
+    res.count("settle-before-next.scenarios." + engine)
+    res.hashes.add(h(["settle", engine, how, depth]))
+    if seen != ["ping@ready"]:
+        res.violation("C04:event-handled-by-transient-configuration/%s/%s" % (how, engine),
+                      "PING was queued behind GO; handled as %s, expected ['ping@ready'] (eventless chain of "
+                      "%d steps)" % (seen, depth), {"engine": engine, "how": how, "chain": depth, "handled": seen})
+
+
 def run_chunk(spec):
     observe.quiet_logs()
     res = Result()
@@ -365,6 +501,22 @@ def run_chunk(spec):
     for j in range(n_sync):
         wd.arm("sync idx=%d" % (base + j))
         sync_case(res, spec, base + j, with_injection=(j % 5 != 4))
+    k = 0
+    for engine in ("sync", "async"):
+        for fault in ("missing-action", "unresolvable-target"):
+            for nb, na in ((0, 2), (1, 1), (2, 3), (3, 0)):
+                for cross in (False, True):
+                    if k % NCHUNKS == ci:
+                        wd.arm("faulty event %s %s" % (engine, fault))
+                        faulty_event_in_the_middle(res, engine, fault, nb, na, cross)
+                    k += 1
+    for engine, hows in (("sync", ("batch", "raised")), ("async", ("batch", "gather", "other-task", "raised"))):
+        for how in hows:
+            for depth in (1, 2, 4):
+                if k % NCHUNKS == ci:
+                    wd.arm("settle %s %s" % (engine, how))
+                    settle_before_next_event(res, engine, how, depth)
+                k += 1
     wd.disarm()
     return res.to_json()
 
@@ -374,7 +526,9 @@ def quota(counters, tier):
     for k in ("histories.async", "histories.sync", "async.sends-mid-macrostep", "async.bursts",
               "sync.injection.sleeps", "sync.drains-by-engine-threads", "sync.producer.after",
               "sync.producer.send", "sync.producer.MainThread", "contiguity.checked",
-              "sync.small-bound-runs", "async.starts-checked",
+              "sync.small-bound-runs", "async.starts-checked", "faulty-event.scenarios.sync",
+              "faulty-event.scenarios.async", "settle-before-next.scenarios.sync",
+              "settle-before-next.scenarios.async",
               "accepted.judged"):
         if counters.get(k, 0) == 0:
             out.append("monitor-never-reached:" + k)
